@@ -303,6 +303,9 @@ pub fn check(c: &Case12, st: &mut Stats, bin: &std::path::Path, scratch: &std::p
         ("clear used", sim.cleared),
         ("output on >= 2 lines", sim.lines_with_output >= 2),
         (">= 3 program lines", sim.program_lines >= 3),
+        ("entered line longer than 8 KiB", sim.script.iter().any(|l| l.len() > 8192)),
+        ("entered line longer than 64 KiB", sim.script.iter().any(|l| l.len() > 65536)),
+        ("more than 4 KiB of output on one line", sim.expect.iter().any(|e| matches!(e, LineExp::Program { out, err } if out.len() + err.len() > 4096))),
     ] {
         if on {
             st.class(name);
@@ -359,11 +362,47 @@ fn strategy() -> BoxedStrategy<Case12> {
         .boxed()
 }
 
+/// long entered lines (far beyond 8 KiB / 64 KiB of source text on one line) and lines that produce more than 4 KiB of output
+fn long_strategy() -> BoxedStrategy<Case12> {
+    (prop::sample::select(vec![200usize, 400, 1500, 3000]), prop::sample::select(vec![0usize, 4222, 8318]), prop::collection::vec(any::<u16>(), 0..3), 1usize..=2, any::<bool>())
+        .prop_map(|(n, loop_n, cuts, target, with_exit)| {
+            let mut cmds = Vec::new();
+            for i in 0..n {
+                cmds.push(RCmd::new(0, 5 + i % 2, 13));
+                cmds.push(RCmd::new(1, 1, target));
+            }
+            if loop_n > 0 {
+                cmds.extend(idiom_loop_clean(loop_n, true, '💖'));
+            }
+            if with_exit {
+                cmds.extend(idiom_exit(1));
+            }
+            // cut into at most 4 lines
+            let mut points: Vec<usize> = cuts.iter().map(|c| pick_idx(*c, cmds.len().max(1))).collect();
+            points.sort_unstable();
+            points.dedup();
+            let mut ops = Vec::new();
+            let mut prev = 0;
+            for p in points {
+                if p > prev {
+                    ops.push(ROp::Enter(p - prev));
+                    prev = p;
+                }
+            }
+            Case12 { cmds, ops, later: Vec::new() }
+        })
+        .boxed()
+}
+
 pub fn run(ctx: &Ctx, out: &mut Outcome) {
     let t = ctx.tier;
     let bin = ctx.hyeong_bin();
     let scratch = ctx.scratch.clone();
     let budget = t.pick(2000, 20000);
+    {
+        let (bin, scratch) = (bin.clone(), scratch.clone());
+        search::<Case12>(ctx, out, "long-lines", t.pick(48, 400), &long_strategy, &move |c, st| check(c, st, &bin, &scratch, 200_000, true));
+    }
     search::<Case12>(ctx, out, "repl-sessions", t.pick(20_000, 200_000), &strategy, &move |c, st| check(c, st, &bin, &scratch, budget, true));
 }
 
@@ -383,6 +422,9 @@ pub fn gates(out: &Outcome, tier: Tier) -> Vec<String> {
         ("output on >= 2 lines", 500),
         (">= 3 program lines", 2000),
         ("compared with the whole run on the binary", 1500),
+        ("entered line longer than 8 KiB", 15),
+        ("entered line longer than 64 KiB", 5),
+        ("more than 4 KiB of output on one line", 8),
     ] {
         if out.stats.get(class) < min * m {
             v.push(format!("class '{}' has {} cases, need >= {}", class, out.stats.get(class), min * m));
